@@ -219,3 +219,146 @@ func specIsItemCode(fc int) bool {
 //@   ensures ok && st == 0 && len(input) == 14 ==> typeis(m.dataItem, emptyItemNode)
 //@   ensures ok && st != 0 ==> len(input) == 14 && typeis(msg, *ControlMessage) && fresh(msg) && len(c.header) == 10 && fresh(c.header)
 //@   ensures ok && st != 0 ==> forall k int :: 0 <= k && k < 10 ==> c.header[k] == input[4+k]
+//@   rac_ensures ok == racAccepts(input)
+//@   rac_ensures ok ==> racReencodes(input, msg)
+
+// ---------------------------------------------------------------------------------------------
+// Run-time oracle (used by rac_ensures only: bounded search and replay, never counted as proved).
+// An independent reference for "one well-formed HSMS message" written from SEMI E5/E37 and the statement of C03:
+// racNormalise returns the input with every length field rewritten to its shortest form and every boolean byte to 0/1,
+// and ok == false when the input is not a well-formed, representable message.
+
+func racItem(b []byte, pos int, out *[]byte) (next int, ok bool) {
+	if pos >= len(b) {
+		return 0, false
+	}
+	fb := b[pos]
+	nlb := int(fb & 3)
+	code := int(fb >> 2)
+	if nlb == 0 || !specIsItemCode(code) || pos+1+nlb > len(b) {
+		return 0, false
+	}
+	n := 0
+	for i := 0; i < nlb; i++ {
+		n = n<<8 | int(b[pos+1+i])
+	}
+	body := pos + 1 + nlb
+	emitHeader := func(count int) {
+		switch {
+		case count <= 255:
+			*out = append(*out, byte(code<<2|1), byte(count))
+		case count <= 65535:
+			*out = append(*out, byte(code<<2|2), byte(count>>8), byte(count))
+		default:
+			*out = append(*out, byte(code<<2|3), byte(count>>16), byte(count>>8), byte(count))
+		}
+	}
+	if code == 0 {
+		emitHeader(n)
+		p := body
+		for i := 0; i < n; i++ {
+			var ok bool
+			p, ok = racItem(b, p, out)
+			if !ok {
+				return 0, false
+			}
+		}
+		return p, true
+	}
+	if n > len(b)-body {
+		return 0, false
+	}
+	payload := b[body : body+n]
+	w := 1
+	switch code {
+	case 26, 42:
+		w = 2
+	case 28, 36, 44:
+		w = 4
+	case 24, 32, 40:
+		w = 8
+	}
+	if n%w != 0 {
+		return 0, false
+	}
+	emitHeader(n)
+	switch code {
+	case 9: // boolean: normalised to 0/1
+		for _, v := range payload {
+			if v != 0 {
+				v = 1
+			}
+			*out = append(*out, v)
+		}
+		return body + n, true
+	case 16: // 7-bit ASCII
+		for _, v := range payload {
+			if v >= 128 {
+				return 0, false
+			}
+		}
+	case 36: // F4: finite
+		for i := 0; i < n; i += 4 {
+			if payload[i]&0x7f == 0x7f && payload[i+1]&0x80 != 0 {
+				return 0, false
+			}
+		}
+	case 32: // F8: finite
+		for i := 0; i < n; i += 8 {
+			if payload[i]&0x7f == 0x7f && payload[i+1]&0xf0 == 0xf0 {
+				return 0, false
+			}
+		}
+	}
+	*out = append(*out, payload...)
+	return body + n, true
+}
+
+func racNormalise(b []byte) ([]byte, bool) {
+	if len(b) < 14 || int(b[0])<<24|int(b[1])<<16|int(b[2])<<8|int(b[3]) != len(b)-4 {
+		return nil, false
+	}
+	if b[8] != 0 || !specDefinedSType(int(b[9])) {
+		return nil, false
+	}
+	if b[9] != 0 {
+		return append([]byte{}, b...), len(b) == 14
+	}
+	if b[6]>>7 == 1 && b[7]%2 == 0 {
+		return nil, false // W-bit on a reply message is not representable
+	}
+	out := append([]byte{0, 0, 0, 0}, b[4:14]...)
+	if len(b) > 14 {
+		next, ok := racItem(b, 14, &out)
+		if !ok || next != len(b) {
+			return nil, false
+		}
+	}
+	n := len(out) - 4
+	out[0], out[1], out[2], out[3] = byte(n>>24), byte(n>>16), byte(n>>8), byte(n)
+	return out, true
+}
+
+// racAccepts: the byte string is one well-formed, representable HSMS message.
+func racAccepts(b []byte) bool {
+	_, ok := racNormalise(b)
+	return ok
+}
+
+// racReencodes: the decoded message denotes exactly the input (up to the normalisation above).
+func racReencodes(b []byte, msg interface{ ToBytes() []byte }) bool {
+	want, ok := racNormalise(b)
+	if !ok || msg == nil {
+		return false
+	}
+	got := msg.ToBytes()
+	if len(got) != len(want) {
+		return false
+	}
+	for i := range got {
+		if got[i] != want[i] {
+			return false
+		}
+	}
+	return true
+}
